@@ -184,7 +184,9 @@ fn direct(toks: &[&str]) -> String {
     let writer = {
         let mut c = client.try_clone().unwrap();
         std::thread::spawn(move || {
-            let _ = c.write_all(&script);
+            if c.write_all(&script).is_err() {
+                RESET_SEEN.store(true, std::sync::atomic::Ordering::SeqCst);
+            }
             let _ = c.shutdown(std::net::Shutdown::Write);
         })
     };
@@ -249,6 +251,10 @@ fn server(toks: &[&str], idle: bool) -> String {
     while pos < script.len() {
         let n = if sched[k % sched.len()] == 0 { script.len() - pos } else { sched[k % sched.len()].min(script.len() - pos) };
         if client.write_all(&script[pos..pos + n]).is_err() {
+            // the server has closed and reset the connection while the client was still sending: the error of the
+            // socket is consumed by this write, the read that follows sees a plain end of stream -- and the client
+            // may have lost response bytes it had not read yet
+            RESET_SEEN.store(true, std::sync::atomic::Ordering::SeqCst);
             break;
         }
         pos += n;
